@@ -89,6 +89,13 @@ def gen_cases(rng, tier):
         t = w['tests'][list(w['tests'])[0]]
         t['setUp'] = [{'a': 'write', 'tok': tok, 'stream': 'stderr', 'via': via}]
         add('n%d' % n, w, 'noise')
+    # ... and lines that arrive after the complete report
+    for lines in (['bye'], ['Exception ignored in: <function x>', 'Traceback (most recent call last):'],
+                  ['3 0 0'], ['a'] * 50):
+        n += 1
+        w = make_world('e%d' % n, rng, rng.choice([0, 2]), 'plain')
+        w['env'] = {'fd2_at_exit': lines}
+        add('e%d' % n, w, 'trailing')
     for tok in ['7 0 0', ' 12 0 0 ', '0 0 0']:
         n += 1
         w = make_world('k%d' % n, rng, 2, 'plain')
